@@ -405,6 +405,13 @@ def run_shard(shard, rec):
             f'9999-12 ({"backwards" if shard["reverse"] else "forwards"}, '
             f'part {shard["part"]})')
     elif kind == 'boundaries':
+        # the seconds around every carry (minute, hour, noon, midnight) with
+        # fractions that round down and up, on day 0 and on later days
+        for sec in (0, 1, 58, 59, 60, 61, 3598, 3599, 3600, 3601, 43199,
+                    43200, 86340, 86398, 86399):
+            for day in (0, 1, 59, 60, 61, 44000, MAX_SERIAL - 1):
+                for frac in (0.0, 0.4, 0.6):
+                    check_time(ctx, sec, day=day, frac=frac)
         for n in BOUNDARY_SERIALS:
             check_serial(ctx, n)
         check_out_of_range(ctx)
